@@ -700,4 +700,28 @@ theorem perm_invariant_partial (d₁ d₂ : Dictionary) (o : Options) (h : PermR
 theorem perm_invariant_repaired : perm_invariant_full Cfg.repaired :=
   Gen.perm_invariant_repaired'
 
+/-! ### Top-level attribute numbers (second audit, finding 1; fix 07e31b9 in /repo) -/
+
+/-- the repaired validity rules refuse an attribute - top-level or vendor - whose number does not fit in one octet:
+    the helpers would compile, and store values that `encodeTo` never puts on the wire (C12
+    `survives_wire_needs_the_type_octet`) -/
+theorem top_level_number_must_fit_the_type_octet (vendor : Bool) (a : Attribute) (n : Int) (ho : a.oid = [n])
+    (hn : n < 0 ∨ 255 < n) : invalidAttr Cfg.current vendor a = true := by
+  have h : (decide (n < 0) || decide (n > 255)) = true := by
+    rcases hn with h | h <;> simp [h]
+  simp [invalidAttr, Cfg.current, Cfg.repaired, ho, h]
+
+/-- … conversely a number 0..255 alone never makes an attribute invalid (the other rules decide) -/
+theorem number_in_range_is_not_the_reason (cfg : Cfg) (vendor : Bool) (a : Attribute) (n : Int) (ho : a.oid = [n])
+    (hn : 0 ≤ n ∧ n ≤ 255) :
+    invalidAttr cfg vendor a = invalidAttr { cfg with rejectRanges := false } vendor a := by
+  have h : (decide (n < 0) || decide (n > 255)) = false := by
+    simp only [Bool.or_eq_false_iff, decide_eq_false_iff_not]; omega
+  simp [invalidAttr, ho, h]
+
+/-- the code as found (and as it stood after the first round of repairs, which range-checked vendor attributes
+    only) accepted `ATTRIBUTE Big-Num 300 string` at top level -/
+theorem top_level_number_unchecked_as_found :
+    invalidAttr Cfg.asIs false { name := bs "Big-Num", oid := [300], typ := .string } = false := by decide
+
 end RV.C17
